@@ -53,7 +53,7 @@ func drawRecs(t *tape.Tape, w *World, sh Shape, o GenOpts) {
 }
 
 func declOptsOf(o GenOpts) DeclOpts {
-	return DeclOpts{NoJS: o.NoJS, OwnDataOnly: o.OwnDataOnly, Collide: o.Family == "collide", Probe: o.Probe}
+	return DeclOpts{NoJS: o.NoJS, OwnDataOnly: o.OwnDataOnly, Collide: o.Family == "collide", Probe: o.Probe, Pathological: o.Pathological}
 }
 
 // addPoisonable makes sure FINAL_OUTPUT casts the int field, so that a non-numeric value (or
@@ -66,13 +66,22 @@ func addPoisonable(decls D, intField string) {
 // addAncestorJS adds the "kanc" declaration: javascript_with_context evaluated on the record's
 // parent, a node that outlives the record (scenario family "ancestor-js").
 func addAncestorJS(w *World, decls D, o GenOpts) {
-	if o.Family != "ancestor-js" || o.NoJS {
+	if o.Family != "ancestor-js" {
 		return
 	}
 	obj := decls["FINAL_OUTPUT"].(D)["object"].(D)
-	obj["kanc"] = D{"xpath": "..", "custom_func": D{"name": "javascript_with_context", "args": []interface{}{D{"const": "_node"}}}}
-	w.UsesJS = true
+	// declarations evaluated with the cursor on the record's parent: the node stays, what it holds changes
+	obj["kancobj"] = D{"xpath": "..", "object": D{
+		"firsts": D{"array": []interface{}{D{"xpath": "*/*[1]"}}},
+		"last":   D{"xpath": "*[last()]/*[1]", "keep_empty_or_null": true}}}
 	w.SetTag("family", "ancestor-js")
+	if o.NoJS {
+		return
+	}
+	obj["kanc"] = D{"xpath": "..", "custom_func": D{"name": "javascript_with_context", "args": []interface{}{D{"const": "_node"}}}}
+	// ... and on the node above that one (where there is one), whose own children stay as well
+	obj["kanc2"] = D{"xpath": "../..", "custom_func": D{"name": "javascript_with_context", "args": []interface{}{D{"const": "_node"}}}}
+	w.UsesJS = true
 }
 
 // BoomValue makes the "kjs" declaration throw.
@@ -90,9 +99,13 @@ func addJSPoisonable(t *tape.Tape, w *World, decls D, o GenOpts, fields []string
 		// what is thrown has a string conversion of its own, which reads the call's argument: the
 		// failure text has to be produced while the call still owns its runtime
 		thrown = "{ toString: function() { return 'boom:' + a.length } }"
-		if t.Bool("gen.kjs.thrown-object.throws") {
+		switch t.Intn("gen.kjs.thrown-object.throws", 3) {
+		case 1:
 			// ... or fails itself
 			thrown = "{ toString: function() { throw new Error('no description') } }"
+		case 2:
+			// ... by throwing the very object again
+			thrown = "{ toString: function() { throw this } }"
 		}
 		w.SetTag("js.thrown-object-with-tostring", "1")
 	}
@@ -192,6 +205,10 @@ func genXML(t *tape.Tape, o GenOpts) *World {
 			sb.WriteString(`<note xmlns="uri://verif/p">n</note>`)
 		case 2:
 			sb.WriteString(`<z:note xmlns:z="uri://verif/p">n</z:note>`)
+		case 3: // one element declares the URI twice: as the default namespace, then under the outer prefix again
+			sb.WriteString(`<note xmlns="uri://verif/p" xmlns:p="uri://verif/p">n</note>`)
+		case 4: // ... the other way round
+			sb.WriteString(`<note xmlns:p="uri://verif/p" xmlns="uri://verif/p">n</note>`)
 		}
 		sb.WriteString("</rec>")
 		return sb.String()
@@ -215,7 +232,7 @@ func genXML(t *tape.Tape, o GenOpts) *World {
 		// namespace declarations inside records: each is scoped to the element that carries it
 		for i := range w.LRecs {
 			if t.Chance("xml.ns.inner.rec", 1, 3) {
-				w.LRecs[i].NS = 1 + t.Intn("xml.ns.inner.kind", 2)
+				w.LRecs[i].NS = 1 + t.Intn("xml.ns.inner.kind", 4)
 				w.RecTexts[i] = w.Render(w.LRecs[i])
 				w.SetTag("xml.namespace-declared-inside-record", "1")
 			}
@@ -254,6 +271,18 @@ func genJSON(t *tape.Tape, o GenOpts) *World {
 		target = "/recs/*[F1 >= 0]"
 	} else if sh.SkipValue != "" {
 		target = "/recs/*[F0 != '" + sh.SkipValue + "']"
+	}
+	// a stream of top-level values, one per record (NDJSON), the top-level value being the target;
+	// drawn here, applied below (the library as it stands reads the first value and refuses the rest)
+	ndjson := o.Family == "" && !o.OwnDataOnly && t.Chance("json.ndjson", 1, 8)
+	if ndjson {
+		target = "."
+		if sh.NumericFilter {
+			target = ".[F1 >= 0]"
+		} else if sh.SkipValue != "" {
+			target = ".[F0 != '" + sh.SkipValue + "']"
+		}
+		w.SetTag("json.stream-of-top-level-values", "1")
 	}
 	decls["FINAL_OUTPUT"].(D)["xpath"] = target
 	numAsNumber := t.Bool("json.num")
@@ -295,6 +324,9 @@ func genJSON(t *tape.Tape, o GenOpts) *World {
 		w.Sep = ",\n"
 	}
 	w.Suffix = "]}"
+	if ndjson {
+		w.Prefix, w.Sep, w.Suffix = "", "\n", "\n"
+	}
 	drawRecs(t, w, sh, o)
 	if MaybeScalarOutput(t, decls, m, o) {
 		w.SetTag("scalar-output", "1")
